@@ -215,8 +215,11 @@ fn stress(s: &mut Session, threads: usize, per: u64) {
             }
         }));
     }
+    let desc = format!("stress threads={threads} per_thread={per}");
     for h in hs {
-        h.join().unwrap();
+        if h.join().is_err() {
+            s.fail("panic", "a thread calling inc/dec on a clone panicked".into(), desc.clone());
+        }
     }
     let mut want: i128 = 0;
     for t in 0..threads {
@@ -229,11 +232,80 @@ fn stress(s: &mut Session, threads: usize, per: u64) {
         }
     }
     let want = want.rem_euclid(1 << 64) as u64;
-    let desc = format!("stress threads={threads} per_thread={per}");
     if pb.position() != want {
         s.fail(
             "lost-update",
             format!("position {} after concurrent inc/dec, expected {want}", pb.position()),
+            desc.clone(),
+        );
+    }
+    s.count("stress_runs");
+    s.oracle_only(desc, true);
+}
+
+/// Mixed concurrent history whose result does not depend on the interleaving: `threads` clones
+/// inc/dec the position while one more clone changes the length (under the bar's mutex) and
+/// another one ticks and reads the getters.  Position updates must not be lost, the length must
+/// be what its own thread's history defines, and nothing may panic.  (Supporting evidence only.)
+fn stress_mixed(s: &mut Session, threads: usize, per: u64) {
+    let pb = ProgressBar::with_draw_target(Some(1000), ProgressDrawTarget::hidden());
+    let desc = format!("stress-mixed threads={threads}+2 per_thread={per}");
+    let mut hs = vec![];
+    for t in 0..threads {
+        let p = pb.clone();
+        hs.push(std::thread::spawn(move || {
+            for i in 0..per {
+                if (i + t as u64) % 4 == 0 {
+                    p.dec(3)
+                } else {
+                    p.inc(1)
+                }
+            }
+        }));
+    }
+    let p = pb.clone();
+    hs.push(std::thread::spawn(move || {
+        for i in 0..per {
+            if i % 3 == 0 {
+                p.dec_length(1)
+            } else {
+                p.inc_length(2)
+            }
+        }
+    }));
+    let p = pb.clone();
+    hs.push(std::thread::spawn(move || {
+        for _ in 0..per {
+            p.tick();
+            let _ = (p.position(), p.length(), p.is_finished());
+        }
+    }));
+    for h in hs {
+        if h.join().is_err() {
+            s.fail("panic", "a thread of the mixed stress panicked".into(), desc.clone());
+        }
+    }
+    let (mut want, mut wlen): (i128, i128) = (0, 1000);
+    for t in 0..threads {
+        for i in 0..per {
+            want += if (i + t as u64) % 4 == 0 { -3 } else { 1 };
+        }
+    }
+    for i in 0..per {
+        wlen += if i % 3 == 0 { -1 } else { 2 };
+    }
+    let want = want.rem_euclid(1 << 64) as u64;
+    if pb.position() != want {
+        s.fail(
+            "lost-update",
+            format!("position {} after concurrent inc/dec next to length changes and ticks, expected {want}", pb.position()),
+            desc.clone(),
+        );
+    }
+    if pb.length() != Some(wlen as u64) || pb.is_finished() {
+        s.fail(
+            "getter-mismatch",
+            format!("length {:?} finished {} after the mixed stress, the length thread's history defines Some({wlen}) false", pb.length(), pb.is_finished()),
             desc.clone(),
         );
     }
@@ -279,5 +351,6 @@ fn main() {
     indicatif::verif_clock::set_auto_step_ns(0);
     stress(&mut s, 4, 20_000);
     stress(&mut s, 16, if a.thorough { 100_000 } else { 10_000 });
+    stress_mixed(&mut s, 8, if a.thorough { 50_000 } else { 5_000 });
     s.finish();
 }
